@@ -245,6 +245,26 @@ def campaign(col, tier, seed, shard, nshards):
             if unknown:
                 col.add_violation(case, unknown)
         col.exhaustive["repr_over_all_attribute_sets"] = True
+    # a fixed spread of values whose formatting is invisible or nearly so (no runs, empty runs, switched-off styles only,
+    # one formatted character) against every derivation, so that these classes are met at every seed
+    ENUM_A = [
+        [], [["", {}]], [["", {"fg": 31}]], [["hello", {}]], [["hello", {"bold": False}]], [["a", {}], ["b", {"underline": False}]],
+        [["ab", {"bold": False, "blink": False}], ["c", {"invert": False}]], [["", {"fg": 31}], ["x", {}]], [["x", {"fg": 31}]],
+        [["ab", {"bold": True}], ["ab", {"bold": False}]], [["a\nb", {"bg": 44}], ["", {}], ["c", {"bg": 44}]],
+    ]
+    ei = 0
+    for a in ENUM_A:
+        for how in sorted(set(HOWS)):
+            for k in (0, 1, 2):
+                ei += 1
+                if ei % nshards != shard:
+                    continue
+                case = {"a": a, "how": how, "k": k, "extra_atts": [{"fg": 31}, {"bold": False}, {}][k], "b": ENUM_A[(ei // 3) % len(ENUM_A)], "b_str": ["", "hello", "ab"][k],
+                        "sub": [0, 0, 1, 2][ei % 4]}
+                unknown = col.record(case, run_case(case), distinct=True, sample=False)
+                if unknown:
+                    col.add_violation(case, unknown)
+    col.exhaustive["invisible_formatting_spread_x_every_derivation"] = True
     n = 5000 if tier == "quick" else 640000
     hyp_campaign(col, strategy(), run_case, max(n // nshards, 100), seed * 100 + shard)
     if tier == "thorough":
